@@ -34,7 +34,12 @@ class Engine:
         d["real"] = d["real"] + ["auditok.cmdline.main interrupt handler "
                                  "(in the cli share of the runs)"]
         d["simulated"] = d["simulated"] + [
-            "Ctrl-C -> KeyboardInterrupt raised out of cmdline's time.sleep"]
+            "Ctrl-C -> KeyboardInterrupt raised out of cmdline's time.sleep "
+            "- or, for a program that waits in Thread.join() instead of "
+            "sleeping, out of that join, with CPython <= 3.12's bpo-45274 "
+            "side effect (the joined thread is marked stopped) modelled; a "
+            "SIGINT handler installed through the signal seam is run "
+            "instead of raising"]
         return d
 
     def assumptions(self, prop):
